@@ -215,6 +215,21 @@ class TextGen:
             return '$%04x' % n
         return str(n)
 
+    def entry_anchor(self, addr):
+        """'#' + a spelling of addr within the #R anchor grammar ([a-zA-Z0-9$#]*): decimal, zero-padded decimal, $HEX, $hex.
+        (Operators and brackets are not part of that grammar, so expression anchors cannot be written.)"""
+        r = self.rng.random()
+        if r < 0.4:
+            sp, a = 'decimal', '%d' % addr
+        elif r < 0.55:
+            sp, a = 'padded-decimal', '%06d' % addr
+        elif r < 0.8:
+            sp, a = 'HEX', '$%04X' % addr
+        else:
+            sp, a = 'hex', '$%x' % addr
+        self.case.features.add('R:anchor-spelling=' + sp)
+        return '#' + a
+
     def link_text(self):
         r = self.rng.random()
         if r < 0.5:
@@ -243,14 +258,14 @@ class TextGen:
             entry = own[addr]
             anchor = ''
             r = rng.random()
-            if r < 0.15:
-                # explicit anchor that evaluates to the entry address
-                if addr != entry.addr and rng.random() < 0.5:
-                    addr = entry.addr
-                if addr == entry.addr:
-                    anchor = '#' + self.num(entry.addr)
-                    case.features.add('R:anchor=entry')
-            elif r < 0.25 and case.anchor_text == '{address}' and not case.single_page:
+            if r < 0.25:
+                # explicit anchor that evaluates to the address of the containing entry (documented to be converted to the
+                # AddressAnchor format), whether the #R target is the entry start, an entry point or a mid-entry instruction
+                anchor = self.entry_anchor(entry.addr)
+                ins = next(i for i in entry.ins if i.addr == addr)
+                case.features.add('R:anchor=entry' if addr == entry.addr else
+                                  ('R:anchor=entry,target=entry-point' if ins.ctl == '*' else 'R:anchor=entry,target=mid-entry-instruction'))
+            elif r < 0.33 and case.anchor_text == '{address}' and not case.single_page:
                 # default anchor format: a decimal instruction address of that entry is a valid literal anchor
                 if addr == entry.addr:
                     anchor = '#%d' % rng.choice([i.addr for i in entry.ins])
@@ -260,13 +275,19 @@ class TextGen:
             oc = rng.choice(others)
             e = rng.choice(oc.live_entries())
             anchor = ''
-            if rng.random() < 0.15:
-                anchor = '#' + self.num(e.addr)
-                case.features.add('R:anchor=entry')
+            if rng.random() < 0.25:
+                anchor = self.entry_anchor(e.addr)
+                case.features.add('R:anchor=entry,other-code')
             return '#R%s@%s%s%s' % (self.num(e.addr), oc.id, anchor, self.link_text())
         oid = rng.choice(sorted(code.remote))
         addr = rng.choice(sorted(code.remote[oid]))
-        return '#R%s@%s%s' % (self.num(addr), oid, self.link_text())
+        anchor = ''
+        if rng.random() < 0.3:
+            # remote entry or remote entry point with an explicit anchor naming the remote entry's address
+            eaddr = code.remote[oid][addr]
+            anchor = self.entry_anchor(eaddr)
+            case.features.add('R:anchor=entry,remote' if addr == eaddr else 'R:anchor=entry,target=remote-entry-point')
+        return '#R%s@%s%s%s' % (self.num(addr), oid, anchor, self.link_text())
 
     def link_macro(self):
         rng, case = self.rng, self.case
